@@ -1,5 +1,5 @@
 use std::collections::hash_map::RandomState;
-use std::collections::{BTreeSet, HashMap, HashSet};
+use std::collections::{HashMap, HashSet};
 use std::iter::zip;
 
 use enum_as_inner::EnumAsInner;
@@ -1239,8 +1239,10 @@ fn try_extract_sql_columns(
     }
     .into_iter()
     .flatten()
-    // deduplicate extracted columns, but preserve their order
-    .collect::<BTreeSet<String>>();
+    // deduplicate extracted columns, but preserve their order (a BTreeSet would sort them:
+    // the columns of the relation are the columns of the SELECT, in its order)
+    .unique()
+    .collect::<Vec<String>>();
 
     if has_wildcard {
         log::debug!("s-string contains a wildcard, skipping column extraction");
